@@ -103,12 +103,27 @@ func dumpAll(s *simkv.Sim, keys []string) string {
 func TestRouting(t *testing.T) {
 	rapid.Check(t, func(t *rapid.T) {
 		engine := rapid.SampledFrom([]string{"mem", "pebble"}).Draw(t, "engine")
-		n := rapid.SampledFrom([]int{1, 2, 3, 4, 8}).Draw(t, "partitions")
+		// any partition count of the documented range: the server's routing (NamespaceMgr.
+		// GetNamespaceNodeWithPrimaryKeySum on the namespace meta) is exercised, not a copy of its formula
+		n := rapid.SampledFrom([]int{1, 2, 3, 4, 8, 5, 6, 7, 10, 12, 24, 100, 1000, 1024}).Draw(t, "partitions")
 		// which partitions of the namespace this server hosts: all, all but one, or any non-empty
 		// subset (down to exactly one partition of many, as on a node of a spread-out cluster)
 		notHosted := map[int]bool{}
 		var hosted []int
-		if n > 1 {
+		if n > 8 {
+			// a node hosts a few partitions of a large namespace
+			for i := 0; i < n; i++ {
+				notHosted[i] = true
+			}
+			for j := rapid.IntRange(1, 3).Draw(t, "nhosted"); j > 0; j-- {
+				delete(notHosted, rapid.IntRange(0, n-1).Draw(t, "hostedpid"))
+			}
+			for i := 0; i < n; i++ {
+				if !notHosted[i] {
+					hosted = append(hosted, i)
+				}
+			}
+		} else if n > 1 {
 			switch rapid.IntRange(0, 2).Draw(t, "hostall") {
 			case 0:
 				notHosted[rapid.IntRange(0, n-1).Draw(t, "missing")] = true
